@@ -26,6 +26,7 @@ import (
 	"verif/lib/report"
 	"verif/lib/shard"
 	"verif/mc/gen"
+	"verif/mc/hpref"
 	"verif/mc/iocase"
 )
 
@@ -856,6 +857,36 @@ func runSpelling(si int) result {
 					if top := topOf(sp, t, false); !top.Err && top.Panic == "" && top.Canon != got {
 						add(fmt.Sprintf("C06|reference-differs-from-token|token=%s|first=%s|dest=%s", sp.name, typeClass(first), typeClass(t)), where+": got "+got+", the token itself decodes into "+t.String()+" as "+top.Canon)
 					}
+				}
+			}
+		}
+	}
+	// (6) reference numbering does not depend on the destination: whatever type the token is decoded into, it
+	// occupies the reference slots the grammar gives it (counted by the independent reader), so a reference to an
+	// item that follows it still finds that item
+	if !sp.refs {
+		xw := sp.bytes(1)
+		if parsed, perr := hpref.Parse([]byte(sp.bytes(0)), hpref.Options{}); perr == nil {
+			n := len(parsed.Refs)
+			str := reflect.TypeOf("")
+			for _, t := range destinations() {
+				if top := topOf(sp, t, false); top.Err || top.Panic != "" {
+					continue
+				}
+				dt := reflect.StructOf([]reflect.StructField{{Name: "A", Type: t}, {Name: "B", Type: str}, {Name: "C", Type: str}})
+				wire := "m3{ua" + xw + `ubs4"beta"uc` + fmt.Sprintf("r%d;}", 1+n)
+				o, v := decodeWire(wire, dt, false)
+				res.Cases++
+				res.Refs++
+				seen[wire+"|"+dt.String()] = true
+				where := fmt.Sprintf("token %s into %s, then the string \"beta\" and a reference to it (%q)", sp.name, t, wire)
+				switch {
+				case o.Panic != "":
+					add(fmt.Sprintf("C06|panic|reference-after=%s|dest=%s", sp.den.kind, typeClass(t)), where+": panic: "+o.Panic)
+				case o.Err:
+					add(fmt.Sprintf("C06|reference-after-token-fails|token-kind=%s|dest=%s", sp.den.kind, typeFamily(t)), where+": error "+o.Msg+" (the token occupies "+fmt.Sprint(n)+" reference slots by the grammar)")
+				case v.Field(2).String() != "beta":
+					add(fmt.Sprintf("C06|reference-after-token-resolves-to-another-item|token-kind=%s|dest=%s", sp.den.kind, typeFamily(t)), where+fmt.Sprintf(": the reference gives %q (the token occupies %d reference slots by the grammar)", v.Field(2).String(), n))
 				}
 			}
 		}
